@@ -111,7 +111,7 @@ def shift(b, days):
     d = dt6(b) + datetime.timedelta(days=days)
     return cat_tok.date(d.year, d.month, d.day)
 
-NAMEV = ('match', 'mismatch', 'prefix')
+NAMEV = ('match', 'mismatch', 'prefix', 'prefix_short')
 VALV = ('nested_eq', 'nested_in', 'overlap_end', 'from_at_until', 'from_before', 'from_after')
 VAL_OK = ('nested_eq', 'nested_in', 'overlap_end', 'from_at_until')       # btok.h: issuer.from <= cert.from <= issuer.until; cert.until is free
 KEYV = ('right', 'wrong', 'wronglen')
@@ -134,7 +134,8 @@ class Node:
 def make_root(kl):
     n = Node()
     n.priv = cat_tok.privkey(kl, 0)
-    c = cat_tok.mk(b'BYCA0000', b'BYCA0000', b'', cat_tok.D_FROM, cat_tok.D_UNTIL, *cat_tok.HATS['both'])
+    rn = b'BYCA0000' if kl in (24, 48) else b'BYCA00001'        # 8 and 9 characters: a 9-character holder admits a shorter prefix below it
+    c = cat_tok.mk(rn, rn, b'', cat_tok.D_FROM, cat_tok.D_UNTIL, *cat_tok.HATS['both'])
     r = run_fn('btok.CVCWrap', dict(c, privkey=n.priv))
     if r['ret']:
         raise RuntimeError('root certificate not created: %#x' % r['ret'])
@@ -154,8 +155,10 @@ def make_node(parent, level, kl, variant):
     h = pc['holder']
     if nv == 'match':
         auth = h
-    elif nv == 'prefix':                      # one name is a proper prefix of the other
+    elif nv == 'prefix':                      # the issuer's holder name is a proper prefix of the authority name ...
         auth = h + b'X' if len(h) < 12 else h[:-1]
+    elif nv == 'prefix_short':                # ... and the authority name a proper prefix of the holder name (both directions)
+        auth = h[:-1] if len(h) > 8 else h + b'X'
     else:
         auth = cat_tok.name(len(h), 40 + level)
         if auth == h:
